@@ -1,5 +1,7 @@
 import ZarrsModel.Model.Interleave
 import ZarrsModel.Lemmas.Interleave
+import ZarrsModel.Lemmas.InterleaveArray
+import ZarrsModel.Props.C01
 /-
 C16 — results do not depend on parallelism or thread interleaving.
 
@@ -7,17 +9,40 @@ Part 1 (store level): key-disjoint tasks commute; every interleaving gives the s
 operation returns what it returns when its task runs alone.
 Part 2 (array level): an array operation on a region reads and writes only the keys of the chunks meeting the
 region, so chunk-disjoint operations are key-disjoint tasks (with C10: chunks partition; C11: keys injective).
+
+(`ZarrsModel.Props.C01` is imported only for the example configuration `C01.exCfg` used by the non-vacuity
+`example`s of part 2.)
 -/
 namespace Zarrs.C16
 open Zarrs
+
+/-! ### the example values used by the non-vacuity `example`s of part 1 -/
+
+/-- a small sorted store -/
+def exStore : KV := [("a".toList, [1, 2, 3]), ("b".toList, [4]), ("d".toList, [5, 6])]
+
+/-- three pairwise key-disjoint tasks (keys {a, c}, {b}, {d, e}) mixing full sets, partial sets (one creating a
+key, one extending a value), gets, ranged gets, size queries and both kinds of erase -/
+def exTasks : List Task :=
+  [ [.setPartial [("a".toList, 2, [7, 7]), ("c".toList, 1, [8])], .getPartial "a".toList [.fromStart 1 (some 3)]],
+    [.erase "b".toList, .sizeKey "b".toList],
+    [.set "e".toList [9], .eraseValues ["d".toList, "e".toList]] ]
+
+/-- a non-trivial merge of `exTasks` -/
+def exSched : List Nat := [2, 0, 1, 0, 2, 1]
 
 /-- operations on different keys commute (state) and do not affect each other's result -/
 theorem ops_commute (m : KV) (hs : m.sorted) (a b : StoreOp) (ka kb : List Key)
     (ha : a.keys = some ka) (hb : b.keys = some kb) (hd : disjointKeys ka kb = true) :
     (Spec.step (Spec.step m a).1 b).1 = (Spec.step (Spec.step m b).1 a).1 ∧
     (Spec.step (Spec.step m a).1 b).2 = (Spec.step m b).2 ∧
-    (Spec.step (Spec.step m b).1 a).2 = (Spec.step m a).2 := by
-  sorry
+    (Spec.step (Spec.step m b).1 a).2 = (Spec.step m a).2 :=
+  Spec.step_commute m hs a b ka kb ha hb ((disjointKeys_iff ka kb).1 hd)
+example : exStore.sorted ∧
+    (StoreOp.setPartial [("a".toList, 2, [7, 7]), ("c".toList, 1, [8])]).keys = some ["a".toList, "c".toList] ∧
+    (StoreOp.eraseValues ["d".toList, "e".toList]).keys = some ["d".toList, "e".toList] ∧
+    disjointKeys ["a".toList, "c".toList] ["d".toList, "e".toList] = true :=
+  ⟨by unfold KV.sorted; decide, rfl, rfl, by decide⟩
 
 /-- **any interleaving of pairwise key-disjoint tasks equals running them one after another, and each task sees
 exactly what it sees alone** — any number of tasks, any lengths, any merge -/
@@ -26,14 +51,31 @@ theorem interleave_eq_solo (m : KV) (hs : m.sorted) (tasks : List Task)
     (sched : List Nat) (hm : isMergeOf tasks sched = true) :
     (runMerge m tasks sched).1 = (runOps m tasks.flatten).1 ∧
     ∀ i, i < tasks.length →
-      resultsOf i (runMerge m tasks sched).2 = (runOps m (tasks.getD i [])).2 := by
-  sorry
+      resultsOf i (runMerge m tasks sched).2 = (runOps m (tasks.getD i [])).2 :=
+  runMerge_eq sched m tasks hs hk (PD_of_pairwiseDisjoint tasks hd) hm
+example : exStore.sorted ∧ (∀ t ∈ exTasks, t.keyAddressed = true) ∧ pairwiseDisjoint exTasks = true ∧
+    isMergeOf exTasks exSched = true :=
+  ⟨by unfold KV.sorted; decide, by decide, by decide, by decide⟩
+/-- the conclusion on the example, checked by evaluation: the merged run ends in the sequential state, which is
+not the initial one, and task 0's ranged read sees task 0's own partial write and nothing of the others -/
+example : (runMerge exStore exTasks exSched).1 = (runOps exStore exTasks.flatten).1 ∧
+    (runMerge exStore exTasks exSched).1 = [("a".toList, [1, 2, 7, 7]), ("c".toList, [0, 8])] ∧
+    resultsOf 0 (runMerge exStore exTasks exSched).2 = [.unit, .parts (some [[2, 7, 7]])] ∧
+    resultsOf 1 (runMerge exStore exTasks exSched).2 = [.unit, .size none] := by decide
+/-- the hypotheses matter: two tasks sharing the key `a` are rejected by `pairwiseDisjoint`, and their merges
+differ from the sequential run -/
+example : pairwiseDisjoint [[.set "a".toList [1]], [.set "a".toList [2]]] = false ∧
+    (runMerge [] [[.set "a".toList [1]], [.set "a".toList [2]]] [1, 0]).1 ≠
+      (runOps [] [[StoreOp.set "a".toList [1]], [.set "a".toList [2]]].flatten).1 := by decide
 
 /-- the order in which whole tasks run does not matter either -/
 theorem task_order_irrelevant (m : KV) (hs : m.sorted) (t u : Task)
     (ht : t.keyAddressed = true) (hu : u.keyAddressed = true) (hd : disjointKeys t.keys u.keys = true) :
-    (runOps m (t ++ u)).1 = (runOps m (u ++ t)).1 := by
-  sorry
+    (runOps m (t ++ u)).1 = (runOps m (u ++ t)).1 :=
+  runOps_task_comm m hs t u ht hu ((disjointKeys_iff t.keys u.keys).1 hd)
+example : exStore.sorted ∧ (exTasks.getD 0 []).keyAddressed = true ∧ (exTasks.getD 2 []).keyAddressed = true ∧
+    disjointKeys (exTasks.getD 0 []).keys (exTasks.getD 2 []).keys = true :=
+  ⟨by unfold KV.sorted; decide, by decide, by decide, by decide⟩
 
 variable {α : Type} [DecidableEq α]
 
@@ -43,26 +85,76 @@ def regionKeys (cfg : ArrCfg α) (region : Subset) : List Key :=
   | some chunks => chunks.indices.map cfg.keyOf
   | none => []
 
-/-- **writes touch only the chunks meeting the region** (frame property of `store_array_subset`) -/
+/-- **writes touch only the chunks meeting the region** (frame property of `store_array_subset`).
+`hw` (start and shape of the region have the same length) was added: without it the statement is false, see the
+counterexample below. -/
 theorem store_array_subset_frame (cfg : ArrCfg α) (st st' : KV) (region : Subset) (d : List α)
+    (hw : region.wf = true)
     (h : cfg.storeArraySubset st region d = some st') (k : Key) (hk : k ∉ regionKeys cfg region) :
     st'.get k = st.get k := by
-  sorry
+  unfold regionKeys at hk
+  cases hc : cfg.grid.chunksInArraySubset region cfg.shape with
+  | none =>
+    unfold ArrCfg.storeArraySubset at h
+    rw [hc] at h
+    split at h <;> cases h
+  | some chunks =>
+    rw [hc] at hk
+    exact ArrCfg.storeArraySubset_frame st st' region d hw h chunks hc k hk
+/-- hypotheses satisfiable: a write straddling four chunks of the 5×7 example array; the key of chunk (2,2) is
+not among the region's keys -/
+example : ∃ st', (⟨[1, 2], [3, 4]⟩ : Subset).wf = true ∧
+    C01.exCfg.storeArraySubset [] ⟨[1, 2], [3, 4]⟩ [0, 1, 2, 3, 4, 5, 6, 7, 8, 9, 10, 11] = some st' ∧
+    C01.exKey [2, 2] ∉ regionKeys C01.exCfg ⟨[1, 2], [3, 4]⟩ ∧ (regionKeys C01.exCfg ⟨[1, 2], [3, 4]⟩).length = 4 :=
+  ⟨_, by decide, rfl, by decide, by decide⟩
+/-- counterexample without `hw`: the ill-formed region `⟨[0,0],[2]⟩` (rank 2, one extent) makes
+`chunks_in_array_subset` return the ill-formed box `⟨[0,0],[1]⟩`, whose only listed index is the truncated `[0]`,
+while the write goes to chunk `[0,0]` -/
+example : ∃ st', C01.exCfg.storeArraySubset [] ⟨[0, 0], [2]⟩ [7, 8] = some st' ∧
+    C01.exKey [0, 0] ∉ regionKeys C01.exCfg ⟨[0, 0], [2]⟩ ∧
+    st'.get (C01.exKey [0, 0]) ≠ KV.get [] (C01.exKey [0, 0]) :=
+  ⟨_, rfl, by decide, by decide⟩
 
-/-- **reads depend only on the chunks meeting the region** -/
+/-- **reads depend only on the chunks meeting the region**.
+`hw` was added for the same reason as in `store_array_subset_frame`; counterexample below. -/
 theorem retrieve_array_subset_local (cfg : ArrCfg α) (st1 st2 : KV) (region : Subset)
+    (hw : region.wf = true)
     (h : ∀ k ∈ regionKeys cfg region, st1.get k = st2.get k) :
     cfg.retrieveArraySubset st1 region = cfg.retrieveArraySubset st2 region := by
-  sorry
+  apply ArrCfg.retrieveArraySubset_local st1 st2 region hw
+  intro chunks hc k hk
+  apply h
+  unfold regionKeys
+  rw [hc]
+  exact hk
+/-- hypotheses satisfiable non-trivially: two different stores that agree on the four chunks meeting the region -/
+example : (⟨[1, 2], [3, 4]⟩ : Subset).wf = true ∧
+    (∀ k ∈ regionKeys C01.exCfg ⟨[1, 2], [3, 4]⟩,
+      KV.get [(C01.exKey [0, 0], [1, 2, 3, 4, 5, 6])] k =
+      KV.get [(C01.exKey [0, 0], [1, 2, 3, 4, 5, 6]), (C01.exKey [2, 2], [9, 9, 9, 9, 9, 9])] k) ∧
+    C01.exCfg.retrieveArraySubset [(C01.exKey [0, 0], [1, 2, 3, 4, 5, 6])] ⟨[1, 2], [3, 4]⟩ =
+      some [6, 0, 0, 0, 0, 0, 0, 0, 0, 0, 0, 0] := by decide
+/-- counterexample without `hw`: the stores agree on the listed key (`exKey [0]`) but the read goes to chunk
+`[0,0]` -/
+example : (∀ k ∈ regionKeys C01.exCfg ⟨[0, 0], [2]⟩,
+      KV.get [] k = KV.get [(C01.exKey [0, 0], [1, 2, 3, 4, 5, 6])] k) ∧
+    C01.exCfg.retrieveArraySubset [] ⟨[0, 0], [2]⟩ ≠
+      C01.exCfg.retrieveArraySubset [(C01.exKey [0, 0], [1, 2, 3, 4, 5, 6])] ⟨[0, 0], [2]⟩ := by decide
 
 /-- whole-chunk operations touch exactly their chunk's key -/
 theorem store_chunk_frame (cfg : ArrCfg α) (st st' : KV) (c : Idx) (d : List α)
-    (h : cfg.storeChunk st c d = some st') (k : Key) (hk : k ≠ cfg.keyOf c) : st'.get k = st.get k := by
-  sorry
+    (h : cfg.storeChunk st c d = some st') (k : Key) (hk : k ≠ cfg.keyOf c) : st'.get k = st.get k :=
+  ArrCfg.storeChunk_frame st st' c d h k hk
+example : ∃ st', C01.exCfg.storeChunk [(C01.exKey [2, 2], [9, 9, 9, 9, 9, 9])] [0, 1] [1, 2, 3, 4, 5, 6] = some st' ∧
+    C01.exKey [2, 2] ≠ C01.exCfg.keyOf [0, 1] :=
+  ⟨_, rfl, by decide⟩
 
 theorem retrieve_chunk_local (cfg : ArrCfg α) (st1 st2 : KV) (c : Idx)
-    (h : st1.get (cfg.keyOf c) = st2.get (cfg.keyOf c)) : cfg.retrieveChunk st1 c = cfg.retrieveChunk st2 c := by
-  sorry
+    (h : st1.get (cfg.keyOf c) = st2.get (cfg.keyOf c)) : cfg.retrieveChunk st1 c = cfg.retrieveChunk st2 c :=
+  ArrCfg.retrieveChunk_congr st2 st1 c h
+example : KV.get [(C01.exKey [0, 1], [1, 2, 3, 4, 5, 6])] (C01.exCfg.keyOf [0, 1]) =
+    KV.get [(C01.exKey [0, 1], [1, 2, 3, 4, 5, 6]), (C01.exKey [2, 2], [9, 9, 9, 9, 9, 9])] (C01.exCfg.keyOf [0, 1]) := by
+  decide
 
 /-- chunk-disjoint regions have disjoint key sets (keys injective) -/
 theorem disjoint_regions_disjoint_keys (cfg : ArrCfg α) (hK : cfg.KeysInjective) (r1 r2 : Subset)
@@ -71,6 +163,22 @@ theorem disjoint_regions_disjoint_keys (cfg : ArrCfg α) (hK : cfg.KeysInjective
     (hd : ∀ i, ¬ (c1.contains i = true ∧ c2.contains i = true))
     (hw1 : c1.wf = true) (hw2 : c2.wf = true) :
     disjointKeys (regionKeys cfg r1) (regionKeys cfg r2) = true := by
-  sorry
+  unfold regionKeys
+  rw [h1, h2]
+  exact ArrCfg.disjoint_boxes_disjoint_keys hK c1 c2 hd hw1 hw2
+/-- hypotheses satisfiable: the regions `⟨[0,0],[4,3]⟩` (chunk rows 0–1 of chunk column 0) and `⟨[1,3],[3,4]⟩`
+(chunk rows 0–1 of chunk columns 1–2) of the 5×7 example array meet disjoint boxes of chunks -/
+example : C01.exCfg.KeysInjective ∧
+    C01.exCfg.grid.chunksInArraySubset ⟨[0, 0], [4, 3]⟩ C01.exCfg.shape = some ⟨[0, 0], [2, 1]⟩ ∧
+    C01.exCfg.grid.chunksInArraySubset ⟨[1, 3], [3, 4]⟩ C01.exCfg.shape = some ⟨[0, 1], [2, 2]⟩ ∧
+    (∀ i, ¬ ((⟨[0, 0], [2, 1]⟩ : Subset).contains i = true ∧ (⟨[0, 1], [2, 2]⟩ : Subset).contains i = true)) ∧
+    (⟨[0, 0], [2, 1]⟩ : Subset).wf = true ∧ (⟨[0, 1], [2, 2]⟩ : Subset).wf = true := by
+  refine ⟨C01.exKey_inj, by decide, by decide, ?_, by decide, by decide⟩
+  intro i hi
+  have h1 := (Subset.mem_indices ⟨[0, 0], [2, 1]⟩ (by decide) i).2 hi.1
+  have h2 := (Subset.mem_indices ⟨[0, 1], [2, 2]⟩ (by decide) i).2 hi.2
+  revert h2
+  have : ∀ j ∈ (⟨[0, 0], [2, 1]⟩ : Subset).indices, j ∉ (⟨[0, 1], [2, 2]⟩ : Subset).indices := by decide
+  exact this i h1
 
 end Zarrs.C16
